@@ -183,7 +183,11 @@ fn mon_c01(snap: &Snap, armed: &mut BTreeMap<String, u64>) -> Vec<(String, Strin
             match last_dispatch {
                 Some(p) => {
                     let idx = if let Rec::Dispatch { worker, .. } = &snap.log[p].2 { *worker } else { usize::MAX };
-                    snap.log[p..].iter().any(|(_, _, r)| matches!(r, Rec::WorkerGone { slot } if snap.workers.get(*slot).map(|w| w.idx) == Some(idx)))
+                    let same_idx = |slot: &usize| snap.workers.get(*slot).map(|w| w.idx) == Some(idx);
+                    // ... provided it was handed over while that worker was still alive: a worker that is
+                    // already being taken apart must refuse the send (its channel is closed first)
+                    let dying_before = snap.log[..p].iter().rev().take_while(|(_, _, r)| !matches!(r, Rec::FactoryNew { slot, .. } if same_idx(slot))).any(|(_, _, r)| matches!(r, Rec::WorkerDying { slot } if same_idx(slot)));
+                    !dying_before && snap.log[p..].iter().any(|(_, _, r)| matches!(r, Rec::WorkerGone { slot } if same_idx(slot)))
                 }
                 None => false,
             }
@@ -312,13 +316,11 @@ fn mon_c04(snap: &Snap, workers: usize, limit: usize, armed: &mut BTreeMap<Strin
         ip.apply(r);
         match r {
             Rec::AcceptState { avail, .. } => {
-                if avail & full != full {
-                    all_avail = false;
-                    window.clear();
-                } else if !all_avail {
-                    all_avail = true;
-                    window.clear();
-                }
+                // "while no worker is saturated" is read at the moment of each dispatch: a dispatch
+                // counts if every availability bit was set when it was made (bits are cleared only by
+                // a saturating dispatch or a fault, so: set at the previous turn boundary and no
+                // saturating dispatch since). Consecutive such dispatches form the window.
+                all_avail = avail & full == full;
                 for w in 0..workers {
                     bit_clear.insert(w, avail & (1u128 << w) == 0);
                 }
@@ -332,6 +334,9 @@ fn mon_c04(snap: &Snap, workers: usize, limit: usize, armed: &mut BTreeMap<Strin
             Rec::Dispatch { conn: Some(c), worker, .. } => {
                 if bit_clear.get(worker) == Some(&true) && ip.count(*worker) > limit {
                     // dispatch to a worker marked unavailable beyond its limit is C02's finding
+                }
+                if !all_avail {
+                    window.clear();
                 }
                 if all_avail {
                     window.push((*c, *worker));
@@ -351,9 +356,9 @@ fn mon_c04(snap: &Snap, workers: usize, limit: usize, armed: &mut BTreeMap<Strin
                     }
                 }
                 if ip.count(*worker) >= limit {
-                    // this worker is saturated now: its bit is cleared by the accept loop
+                    // this worker is saturated now: its bit is cleared by the accept loop (the
+                    // dispatch itself was made with every bit set and stays in the window)
                     all_avail = false;
-                    window.clear();
                 }
             }
             _ => {}
@@ -576,7 +581,7 @@ fn mon_c06(snap: &Snap, timeout_s: u64, armed: &mut BTreeMap<String, u64>) -> Ve
             let called: Vec<usize> = snap.log[..p].iter().filter_map(|(_, _, r)| if let Rec::Call { conn: Some(c), .. } = r { Some(*c) } else { None }).collect();
             let still: Vec<usize> = ip.worker_of.keys().copied().filter(|c| called.contains(c)).collect();
             if let Some(ts) = t_stop {
-                if !still.is_empty() && t_done < ts + timeout_s * 1000 {
+                if !still.is_empty() && t_done < ts.saturating_add(timeout_s.saturating_mul(1000)) {
                     out.push((
                         "C06:graceful-stop-did-not-wait".to_string(),
                         format!("graceful stop resolved at {t_done} ms, {} ms after the workers were told to stop (shutdown_timeout {timeout_s} s), while connection(s) {:?} were still being served", t_done - ts, still),
@@ -622,7 +627,7 @@ fn mon_c06(snap: &Snap, timeout_s: u64, armed: &mut BTreeMap<String, u64>) -> Ve
                 match v.state {
                     "shutdown" => {
                         let el = v.shutdown_elapsed.unwrap_or_default().as_millis() as u64;
-                        if el >= timeout_s * 1000 + 1000 {
+                        if el >= timeout_s.saturating_mul(1000).saturating_add(1000) {
                             out.push(("C06:shutdown-exceeds-timeout".to_string(), format!("worker {} is still shutting down {el} ms after it was told to stop (shutdown_timeout {timeout_s} s, 1 s tick)", w.idx)));
                             return out;
                         }
@@ -960,6 +965,8 @@ fn specs_for(prop: &'static str, tier: Tier) -> Vec<SpecImpl> {
             }
             // three workers: the rotation steps over a full worker
             v.push(mk(cfg(3, &[Uds], 1), Bounds { connects: 4, ..Default::default() }));
+            // two listeners with waiting clients: capacity freed by one completion is handed out once
+            v.push(mk(cfg(1, &[Uds, Uds], 1), Bounds { connects: 3, connect_listeners: vec![0, 1], ..Default::default() }));
             // readiness changes of the service must not make a saturated worker look available
             v.push(mk(cfg(1, &[Uds], 1), Bounds { connects: 3, modes: vec![Mode::Ready, Mode::Pending], max_mode_changes: 2, ..Default::default() }));
             // pause / resume must not make a saturated worker look available
@@ -986,6 +993,8 @@ fn specs_for(prop: &'static str, tier: Tier) -> Vec<SpecImpl> {
                 v.push(mk(cfg(2, &[Uds], 1), Bounds { connects: 2, kills: 2, completes: false, ..Default::default() }));
                 // a service future panics
                 v.push(mk(cfg(1, &[Uds], 2), Bounds { connects: 3, conn_panics: 1, ..Default::default() }));
+                // the accept loop runs while a dying worker is being taken apart
+                v.push(mk(cfg(2, &[Uds], 1), Bounds { connects: 3, kills: 1, nested: 1, ..Default::default() }));
             } else {
                 v.push(mk(cfg(2, &[Uds], 1), Bounds { connects: 4, kills: 1, ..Default::default() }));
                 v.push(mk(cfg(3, &[Uds], 1), Bounds { connects: 4, kills: 1, ..Default::default() }));
@@ -1027,6 +1036,8 @@ fn specs_for(prop: &'static str, tier: Tier) -> Vec<SpecImpl> {
                 v.push(mk(cfg(1, &[Uds], 2), Bounds { connects: 2, injects: vec![(0, ErrKind::Emfile)], max_injects: 1, cmds: cmds.clone(), max_cmds: 3, ..Default::default() }));
                 // back-off of one listener while the other keeps the accept loop busy; clock in steps below the back-off
                 v.push(mk(cfg(1, &[Uds, Uds], 2), Bounds { connects: 2, connect_listeners: vec![0, 1], injects: vec![(0, ErrKind::Emfile)], max_injects: 1, advances: vec![300], max_advances: 3, ..Default::default() }));
+                // overlapping back-offs of two listeners: each comes back at its own deadline
+                v.push(mk(cfg(1, &[Uds, Uds], 2), Bounds { connects: 2, connect_listeners: vec![0, 1], injects: vec![(0, ErrKind::Emfile), (1, ErrKind::Emfile)], max_injects: 2, advances: vec![300], max_advances: 3, ..Default::default() }));
             } else {
                 let all = |l: usize| vec![(l, ErrKind::Emfile), (l, ErrKind::Enfile), (l, ErrKind::Aborted), (l, ErrKind::Reset), (l, ErrKind::Refused), (l, ErrKind::Interrupted)];
                 for k in [Uds, Tcp] {
@@ -1052,6 +1063,10 @@ fn specs_for(prop: &'static str, tier: Tier) -> Vec<SpecImpl> {
                 v.push(mk(cfg(1, &[Tcp], 1), Bounds { connects: 2, cmds: vec![Ev::Pause, Ev::Stop(true), Ev::Stop(false)], max_cmds: 2, advances: vec![1000], max_advances: 3, ..Default::default() }));
                 // clock steps that are not multiples of the 1 s tick (ticks then fire late)
                 v.push(mk(cfg(1, &[Uds], 2), Bounds { connects: 1, cmds: vec![Ev::Stop(true)], max_cmds: 1, advances: vec![700, 1000], max_advances: 4, ..Default::default() }));
+                // a tick that is handled more than one period late; extreme timeouts ("wait for ever", 0)
+                v.push(mk(Config { shutdown_timeout_s: 6, ..cfg(1, &[Uds], 2) }, Bounds { connects: 1, cmds: vec![Ev::Stop(true)], max_cmds: 1, advances: vec![2200, 1000], max_advances: 3, ..Default::default() }));
+                v.push(mk(Config { shutdown_timeout_s: u64::MAX, ..cfg(1, &[Uds], 2) }, Bounds { connects: 1, cmds: vec![Ev::Stop(true)], max_cmds: 1, advances: vec![1000], max_advances: 3, ..Default::default() }));
+                v.push(mk(Config { shutdown_timeout_s: 0, ..cfg(1, &[Uds], 2) }, Bounds { connects: 1, cmds: vec![Ev::Stop(true)], max_cmds: 1, advances: vec![1000], max_advances: 2, ..Default::default() }));
             } else {
                 let all = vec![Ev::Stop(true), Ev::Stop(false), Ev::Signal(2), Ev::Signal(15), Ev::Signal(3), Ev::Pause];
                 v.push(mk(cfg(1, &[Uds], 3), Bounds { connects: 3, cmds: all.clone(), max_cmds: 2, advances: vec![1000], max_advances: 4, drop_stop: true, ..Default::default() }));
@@ -1084,6 +1099,8 @@ fn specs_for(prop: &'static str, tier: Tier) -> Vec<SpecImpl> {
                 v.push(mk(cfg(2, &[Uds], 2), Bounds { connects: 3, kills: 1, ..Default::default() }));
                 // two faults in sequence (handle order is permuted by the first repair)
                 v.push(mk(cfg(2, &[Uds], 1), Bounds { connects: 2, kills: 2, completes: false, ..Default::default() }));
+                // the replacement arrives while the server is paused
+                v.push(mk(cfg(1, &[Uds], 1), Bounds { connects: 2, kills: 1, cmds: vec![Ev::Pause, Ev::Resume], max_cmds: 2, completes: false, ..Default::default() }));
             } else {
                 for (w, l, n, k, nested) in [(1, 1, 4, 1, 1), (1, 2, 4, 2, 0), (2, 1, 4, 1, 1), (2, 2, 4, 2, 0), (3, 1, 4, 1, 0), (3, 1, 3, 2, 0), (3, 2, 4, 1, 0)] {
                     v.push(mk(cfg(w, &[Uds], l), Bounds { connects: n, kills: k, nested, ..Default::default() }));
